@@ -828,7 +828,91 @@ func graphReplay(scn string, w *hx.Writer) {
 	if err != nil {
 		return
 	}
+	if shrinkSig != "" {
+		sc = shrinkGraph(sc, shrinkSig)
+	}
 	emitGraph(sc, []string{"replay"}, w)
+}
+
+func cloneScen(sc *gScen) *gScen {
+	c := &gScen{loaderFail: sc.loaderFail, scanFail: sc.scanFail, rankSeed: sc.rankSeed, natural: sc.natural}
+	for _, n := range sc.nodes {
+		m := n
+		m.slots = map[string]string{}
+		for k, v := range n.slots {
+			m.slots[k] = v
+		}
+		c.nodes = append(c.nodes, m)
+	}
+	return c
+}
+
+func failsWith(sc *gScen, sig string) bool {
+	r := runGraph(sc)
+	if r.status == "dupname" {
+		return false
+	}
+	if r.status == "hang" {
+		return sig == "c02-hang"
+	}
+	for _, f := range r.oracles() {
+		if strings.HasPrefix(f, "FAIL "+sig+" ") {
+			return true
+		}
+	}
+	return false
+}
+
+// shrinkGraph: greedy delta debugging of a scenario while an oracle failure with the given signature persists:
+// drop nodes, drop slots, clear substitution / faults / configuration slots, drop optional arguments.
+func shrinkGraph(sc *gScen, sig string) *gScen {
+	if !failsWith(sc, sig) {
+		return sc
+	}
+	cur := cloneScen(sc)
+	for changed, rounds := true, 0; changed && rounds < 8; rounds++ {
+		changed = false
+		for i := len(cur.nodes) - 1; i >= 0 && len(cur.nodes) > 1; i-- {
+			c := cloneScen(cur)
+			c.nodes = append(c.nodes[:i], c.nodes[i+1:]...)
+			if failsWith(c, sig) {
+				cur, changed = c, true
+			}
+		}
+		for i := range cur.nodes {
+			var keys []string
+			for k := range cur.nodes[i].slots {
+				keys = append(keys, k)
+			}
+			sort.Strings(keys)
+			for _, k := range keys {
+				c := cloneScen(cur)
+				delete(c.nodes[i].slots, k)
+				if failsWith(c, sig) {
+					cur, changed = c, true
+				}
+			}
+			for _, f := range []func(n *gNode){
+				func(n *gNode) { n.early = 0 }, func(n *gNode) { n.after = 0 }, func(n *gNode) { n.flt = 0 },
+				func(n *gNode) { n.cfg = 0 }, func(n *gNode) { n.q = "" }, func(n *gNode) { n.ord = 0 },
+			} {
+				c := cloneScen(cur)
+				before := fmt.Sprint(c.nodes[i])
+				f(&c.nodes[i])
+				if fmt.Sprint(c.nodes[i]) != before && failsWith(c, sig) {
+					cur, changed = c, true
+				}
+			}
+		}
+		if cur.loaderFail || cur.scanFail {
+			c := cloneScen(cur)
+			c.loaderFail, c.scanFail = false, false
+			if failsWith(c, sig) {
+				cur, changed = c, true
+			}
+		}
+	}
+	return cur
 }
 
 var hangs int
